@@ -267,6 +267,15 @@ def c08_numeric(ros):
         bound = F(2, 10 ** 5) if name == "FourStageRosenbrockParameters" else tol
         if abs(rinf) > bound:
             fails.append(f"{name}: |R(inf)| = {float(abs(rinf)):.3e} exceeds {float(bound):.1e}")
+        if name == "TwoStageRosenbrockParameters":
+            # the documented closed forms of ROS2 (same residuals as Micm.C08_ros2_closed_form)
+            cf = {"a_[0]": a[0] - 1 / g, "c_[0]": c[0] + 2 / g, "m_[0]": m[0] - 3 / (2 * g), "m_[1]": m[1] - 1 / (2 * g),
+                  "e_[0]": e[0] - 1 / (2 * g), "e_[1]": e[1] - 1 / (2 * g), "2(gamma-1)^2-1": 2 * (g - 1) * (g - 1) - 1}
+            vals = {"a_[0]": a[0], "c_[0]": c[0], "m_[0]": m[0], "m_[1]": m[1], "e_[0]": e[0], "e_[1]": e[1], "2(gamma-1)^2-1": g}
+            for k, v in cf.items():
+                if abs(v) > F(1, 10 ** 15):
+                    fails.append(f"{name}: {k} = {float(vals[k])!r} deviates from the closed form of ROS2 (a=1/g, c=-2/g, m=(3/(2g), 1/(2g)), "
+                                 f"e=(1/(2g), 1/(2g)), g=gamma_[0]) by {float(v):.3e}")
         if d["estimator_of_local_order"] != float(p):
             fails.append(f"{name}: estimator_of_local_order_ = {d['estimator_of_local_order']} but the documented order is {p}")
     return fails
